@@ -17,7 +17,7 @@ def sh(cmd, cwd=None, env=None, timeout=1800):
 
 
 def run_demo(wt, demo):
-    env = dict(os.environ, PYTHONPATH=wt + ":/tmp/mut/fakegi")
+    env = dict(os.environ, PYTHONPATH=wt + ":" + os.path.join(VERIF, "harness", "impl", "fakegi"))
     rc, out = sh([PY, "-m", "pytest", "-q", "-p", "no:cacheprovider", demo], cwd=wt, env=env, timeout=600)
     if "no tests ran" in out or "collected 0 items" in out:
         rc, out = sh([PY, demo], cwd=wt, env=env, timeout=600)
